@@ -52,16 +52,50 @@ type E2ECase struct {
 // proxy
 
 type proxyDir struct {
-	mu   sync.Mutex
-	rec  []byte
-	cuts []int
-	hold int // flush only once this many NULs are pending (0 = flush as data arrives)
-	segs int // segments written
+	mu      sync.Mutex
+	cond    *sync.Cond
+	rec     []byte
+	pending []byte
+	cuts    []int
+	k       int
+	hold    int  // forward only once this many NULs are pending (0 = forward as data arrives)
+	gate    bool // closed: nothing is forwarded until openGate
+	eof     bool // the source is finished
+	segs    int  // segments written
+}
+
+func newProxyDir(cuts []int) *proxyDir {
+	d := &proxyDir{cuts: cuts}
+	d.cond = sync.NewCond(&d.mu)
+	return d
 }
 
 func (d *proxyDir) setHold(n int) {
 	d.mu.Lock()
 	d.hold = n
+	d.cond.Broadcast()
+	d.mu.Unlock()
+}
+
+// closeGate makes the direction accumulate everything until openGate.
+func (d *proxyDir) closeGate() {
+	d.mu.Lock()
+	d.gate = true
+	d.mu.Unlock()
+}
+
+// pendingFrames returns the number of complete frames being held back.
+func (d *proxyDir) pendingFrames() int {
+	d.mu.Lock()
+	defer d.mu.Unlock()
+	return bytes.Count(d.pending, []byte{0})
+}
+
+// openGate delivers everything held back (under the cut plan) and forwards normally from then on.
+func (d *proxyDir) openGate() {
+	d.mu.Lock()
+	d.gate = false
+	d.cond.Broadcast()
 	d.mu.Unlock()
 }
 
@@ -72,57 +106,69 @@ func (d *proxyDir) Recorded() []byte {
 	return append([]byte(nil), d.rec...)
 }
 
-// Proxy relays between the client side conn a and the service side conn b.
+// Proxy relays between the client side conn a and the service side conn b. Like a kernel socket (and
+// unlike net.Pipe) it never makes a writer wait for the reader on the other side: each direction has a
+// reading goroutine that only queues and a writing goroutine that forwards under the cut plan.
 type Proxy struct {
 	a, b     net.Conn
 	C2S, S2C *proxyDir
 	wg       sync.WaitGroup
 }
 
-func (p *Proxy) pump(src, dst net.Conn, d *proxyDir) {
+func (p *Proxy) reader(src net.Conn, d *proxyDir) {
 	defer p.wg.Done()
 	buf := make([]byte, 65536)
-	var pending []byte
-	k := 0
 	for {
 		n, err := src.Read(buf)
+		d.mu.Lock()
 		if n > 0 {
-			d.mu.Lock()
 			d.rec = append(d.rec, buf[:n]...)
-			hold := d.hold
-			d.mu.Unlock()
-			pending = append(pending, buf[:n]...)
-			if hold == 0 || bytes.Count(pending, []byte{0}) >= hold {
-				if hold != 0 {
-					d.setHold(0)
-				}
-				for len(pending) > 0 {
-					sz := len(pending)
-					if len(d.cuts) > 0 {
-						sz = d.cuts[k%len(d.cuts)]
-						k++
-						if sz <= 0 {
-							sz = 1
-						}
-						if sz > len(pending) {
-							sz = len(pending)
-						}
-					}
-					if _, werr := dst.Write(pending[:sz]); werr != nil {
-						src.Close()
-						return
-					}
-					d.mu.Lock()
-					d.segs++
-					d.mu.Unlock()
-					pending = pending[sz:]
-				}
-			}
+			d.pending = append(d.pending, buf[:n]...)
 		}
 		if err != nil {
-			if len(pending) > 0 {
-				dst.Write(pending)
+			d.eof = true
+		}
+		d.cond.Broadcast()
+		d.mu.Unlock()
+		if err != nil {
+			return
+		}
+	}
+}
+
+func (p *Proxy) writer(src, dst net.Conn, d *proxyDir) {
+	defer p.wg.Done()
+	for {
+		d.mu.Lock()
+		for !d.eof && (len(d.pending) == 0 || d.gate || (d.hold > 0 && bytes.Count(d.pending, []byte{0}) < d.hold)) {
+			d.cond.Wait()
+		}
+		data, eof := d.pending, d.eof
+		d.pending = nil
+		d.hold = 0
+		d.mu.Unlock()
+		for len(data) > 0 {
+			sz := len(data)
+			if len(d.cuts) > 0 {
+				sz = d.cuts[d.k%len(d.cuts)]
+				d.k++
+				if sz <= 0 {
+					sz = 1
+				}
+				if sz > len(data) {
+					sz = len(data)
+				}
 			}
+			if _, werr := dst.Write(data[:sz]); werr != nil {
+				src.Close()
+				return
+			}
+			d.mu.Lock()
+			d.segs++
+			d.mu.Unlock()
+			data = data[sz:]
+		}
+		if eof {
 			dst.Close()
 			return
 		}
@@ -130,10 +176,12 @@ func (p *Proxy) pump(src, dst net.Conn, d *proxyDir) {
 }
 
 func startProxy(a, b net.Conn, c2s, s2c []int) *Proxy {
-	p := &Proxy{a: a, b: b, C2S: &proxyDir{cuts: c2s}, S2C: &proxyDir{cuts: s2c}}
-	p.wg.Add(2)
-	go p.pump(a, b, p.C2S)
-	go p.pump(b, a, p.S2C)
+	p := &Proxy{a: a, b: b, C2S: newProxyDir(c2s), S2C: newProxyDir(s2c)}
+	p.wg.Add(4)
+	go p.reader(a, p.C2S)
+	go p.writer(a, b, p.C2S)
+	go p.reader(b, p.S2C)
+	go p.writer(b, a, p.S2C)
 	return p
 }
 
